@@ -100,7 +100,7 @@ func VH_C11_roundtrip() {
 	if err != nil {
 		return
 	}
-	vAssert("C11.private-key-operation-performed-once", vRSADecryptCalls() == 1)
+	vAssertModel("C11.private-key-operation-performed-once", vRSADecryptCalls() == 1)
 	vAssert("C11,C08.plaintext-length-exact", len(out) == plen)
 	if isCBC {
 		j := vInt("probe.index", 0, 46)
